@@ -63,6 +63,7 @@ type Label struct {
 	Doc     string // query mutation sub subfail invalid   (Pay == "doc")
 	Variant int    // wire spelling
 	Big     bool   // query whose answer is ~100 KB (same label: a query)
+	Gated   bool   // the handler call of this frame (init callback, resolver, subscribe resolver) blocks on the harness's gate (same label)
 	// lEmit / lSrcEnd: Src is the creation index of the source the script means; Op is filled in
 	// when the label is performed: the operation number of that source (what the model's label
 	// names), or the label's own index when there is no such source
@@ -139,7 +140,7 @@ func docText(doc string, variant int, n int) (query string, extra map[string]int
 		case 3:
 			return "subscription{nope}", nil
 		default:
-			return "query A{q(n:0)} query B{q(n:0)}", nil // valid document, no operation selected
+			return "query A{q} query B{q}", nil // valid document, no operation selected
 		}
 	}
 	panic("doc " + doc)
@@ -173,6 +174,9 @@ func (l Label) wire(n int) (data []byte, binary bool) {
 	}
 	switch l.Pay {
 	case "none":
+		if l.Gated && l.Type == "init" {
+			s += `,"payload":{"gate":true}`
+		}
 	case "junk":
 		s += `,"payload":` + junkPayloads[l.Variant%len(junkPayloads)]
 	case "reject":
@@ -181,6 +185,12 @@ func (l Label) wire(n int) (data []byte, binary bool) {
 		q, extra := docText(l.Doc, l.Variant, n)
 		if l.Big && l.Doc == "query" {
 			q, extra = fmt.Sprintf("{big(n:%d)}", n), nil
+		}
+		if l.Gated && l.Doc == "query" {
+			q, extra = fmt.Sprintf("{q:qg(n:%d)}", n), nil
+		}
+		if l.Gated && l.Doc == "sub" {
+			q, extra = fmt.Sprintf("subscription{s:sg(n:%d)}", n), nil
 		}
 		p := map[string]interface{}{"query": q}
 		for k, v := range extra {
@@ -299,8 +309,18 @@ func parseServerFrame(proto string, p []byte) SFrame {
 		if v := resp.Data["s"]; v != nil && len(resp.Errors) == 0 {
 			return SFrame{Kind: "data", ID: id, Class: "ev", N: *v / 1000, K: *v % 1000}
 		}
-		if len(resp.Errors) > 0 && len(resp.Data) == 0 {
-			return SFrame{Kind: "data", ID: id, Class: "err"}
+		if len(resp.Errors) > 0 {
+			// errors only, or errors with null data (a field that failed: e.g. "context canceled" for an
+			// operation executed after the handler context was cancelled)
+			allNull := true
+			for _, v := range resp.Data {
+				if v != nil {
+					allNull = false
+				}
+			}
+			if allNull {
+				return SFrame{Kind: "data", ID: id, Class: "err"}
+			}
 		}
 	}
 	return SFrame{Kind: "other", Raw: raw}
